@@ -223,7 +223,7 @@ pub fn run(case: &ACase) -> Option<String> {
 }
 
 /// C13 for the async dispatcher: `setup` reaches every ordinary and every thread-local system exactly once per call
-pub fn setup_run(plan: &Case) -> Option<String> {
+pub fn setup_run(plan: &Case, in_flight: bool) -> Option<String> {
     let ctx = Ctx::new();
     let mut b = Builder::new();
     b.add_pool(pool());
@@ -251,6 +251,26 @@ pub fn setup_run(plan: &Case) -> Option<String> {
                         n
                     ));
                 }
+            }
+        }
+    }
+    if !in_flight {
+        return None;
+    }
+    // setup called while a dispatch is still in flight: it must wait for the state and still reach every system
+    ctx.gate_open.store(false, Ordering::SeqCst);
+    ctx.gate_ms.store(30, Ordering::SeqCst);
+    d.dispatch();
+    ctx.take();
+    d.setup();
+    let evs = ctx.take();
+    ctx.gate_ms.store(0, Ordering::SeqCst);
+    d.wait();
+    for i in &infos {
+        if i.kind == Kind::Sys || i.kind == Kind::Tl {
+            let n = evs.iter().filter(|e| e.uid == i.uid && e.k == EvK::Setup).count();
+            if n != 1 {
+                return Some(format!("AsyncDispatcher::setup called right after dispatch (systems still running) called the setup of #{} {} times, expected exactly once", i.uid, n));
             }
         }
     }
